@@ -340,12 +340,16 @@ func (s *LevelDBStore) DeleteRange(min, max uint64) error {
 
 // Set implements raft.StableStore.
 func (s *LevelDBStore) Set(key []byte, val []byte) error {
+	s.mu.RLock()
+	defer s.mu.RUnlock()
 	key = append([]byte("stablestore-"), key...)
 	return s.db.Put(key, val, nil)
 }
 
 // Get implements raft.StableStore.
 func (s *LevelDBStore) Get(key []byte) ([]byte, error) {
+	s.mu.RLock()
+	defer s.mu.RUnlock()
 	key = append([]byte("stablestore-"), key...)
 	value, err := s.db.Get(key, nil)
 	if err == leveldb.ErrNotFound {
@@ -356,6 +360,8 @@ func (s *LevelDBStore) Get(key []byte) ([]byte, error) {
 
 // SetUint64 implements raft.StableStore.
 func (s *LevelDBStore) SetUint64(key []byte, val uint64) error {
+	s.mu.RLock()
+	defer s.mu.RUnlock()
 	key = append([]byte("stablestore-"), key...)
 
 	v := make([]byte, binary.Size(val))
@@ -366,6 +372,8 @@ func (s *LevelDBStore) SetUint64(key []byte, val uint64) error {
 
 // GetUint64 implements raft.StableStore.
 func (s *LevelDBStore) GetUint64(key []byte) (uint64, error) {
+	s.mu.RLock()
+	defer s.mu.RUnlock()
 	key = append([]byte("stablestore-"), key...)
 	v, err := s.db.Get(key, nil)
 	if err == leveldb.ErrNotFound {
